@@ -97,6 +97,15 @@ def judge_root(topo, style, ns, form, node, depths, res, case, order="mu", flavo
         if not same(u.val, e):
             res.violation(f"C07/unmarshal/root={form}/edges={kinds}/level-not-converted/{dclass}",
                           f"unmarshal({form} of C{node}, depth {d}) = {short(u.val, 160)} but every level should be converted: {short(e, 160)}; topology {topo.key()} [{style}]", dict(case, d=d))
+        if form == "cls" and flavour == "dc" and d in (1, 2) and isinstance(w, dict):
+            # the root given as an INSTANCE of the root class whose members are still in wire form: every level below it is converted all the same
+            raw = call(lambda: ns[f"C{node}"](**w))
+            if raw.ok:
+                ur = call(bu.val, raw.val)
+                res.evals += 1
+                if not ur.ok or not same(ur.val, e):
+                    res.violation(f"C07/unmarshal/root=cls-instance-with-raw-members/edges={kinds}/{'raises:' + ur.excname if not ur.ok else 'level-not-converted'}/{dclass}",
+                                  f"unmarshal(C{node}, C{node}(**wire of depth {d})) = {short(ur.val if ur.ok else ur.exc, 160)} expected {short(e, 160)}; topology {topo.key()} [{style}]", dict(case, d=d))
         m = call(bm.val, e)
         res.evals += 1
         if not m.ok:
